@@ -34,6 +34,9 @@ type Op struct {
 	// Origin: 0 = remote op of the generated set, else the replica id that produced it
 	// through the local write path.
 	Origin uint32 `json:"origin,omitempty"`
+	// Lost: a local op that the local path did not forward at commit (it is therefore
+	// never gossiped; only its origin ever "received" it).
+	Lost bool `json:"lost,omitempty"`
 }
 
 func (o Op) String() string {
@@ -115,6 +118,8 @@ type Step struct {
 	Pre      map[string]KeyState `json:"pre"`
 	Post     map[string]KeyState `json:"post"`
 	Err      string              `json:"err,omitempty"`
+	// local steps: index of the step before which the transaction's leases were decided
+	LeaseDecidedAt int `json:"lease_decided_at,omitempty"`
 }
 
 // IngressTrace is the full record of one case.
@@ -129,6 +134,9 @@ type IngressTrace struct {
 	Shape     string                `json:"shape"`
 	// Counters
 	NBatches, NLocal, NDupDeliveries, NTies int
+	// local transactions: ops in them, ops that lost at commit, multi-op transactions,
+	// transactions with both a winner and a loser
+	NLocalOps, NLocalLost, NLocalMulti, NLocalMixed int
 }
 
 type replica struct {
@@ -137,6 +145,10 @@ type replica struct {
 	in    *verifx.Ingress
 	loc   *verifx.Local
 	queue []int
+	// open local transaction: ops whose lease was decided at step pendingAt
+	pending   []Op
+	pendingAt int
+	nextBase  int64
 }
 
 func (o Op) toOperation() verifx.Operation {
@@ -263,80 +275,152 @@ func RunIngress(ctx context.Context, r *prng.R, p IngressParams) (*IngressTrace,
 		q[pos] = id
 		return q
 	}
-	for remaining() > 0 {
+	anyPending := func() bool {
+		for _, rp := range reps {
+			if len(rp.pending) > 0 {
+				return true
+			}
+		}
+		return false
+	}
+	// begin: the replica's client adds 1-3 ops on distinct keys to a transaction. The
+	// lease is decided NOW, as tx.Set/tx.Delete do: legal only for keys that have no
+	// digest here or whose digest is led by this replica. The transaction commits later.
+	begin := func(rp *replica, state map[string]KeyState) {
+		n := r.Range(1, 3)
+		seenKey := map[string]bool{}
+		for j := 0; j < n; j++ {
+			k := prng.Pick(r, t.Keys)
+			ks := state[k]
+			if (ks.HasDigest && ks.Lease != rp.id) || seenKey[k] {
+				continue
+			}
+			seenKey[k] = true
+			o := Op{Key: k, Lease: rp.id, Origin: rp.id}
+			if r.Chance(1, 4) {
+				o.Del = true
+			}
+			rp.pending = append(rp.pending, o)
+		}
+		rp.pendingAt = len(t.Steps)
+	}
+	// commit: the pending transaction goes through the real versionAssigner -> persist
+	// path. Whatever that path forwards is what the real pipeline hands to the persist
+	// splitter (observers, gossip store): only those ops are gossiped to the others.
+	commit := func(ri int, rp *replica, pre map[string]KeyState) error {
+		specs := rp.pending
+		rp.pending = nil
+		var req verifx.TxRequest
+		req.Leaseholder = verifx.NodeKey(rp.id)
+		for i := range specs {
+			specs[i].ID = len(t.Ops) + i
+			if !specs[i].Del {
+				specs[i].Value = fmt.Sprintf("l%d", specs[i].ID)
+			}
+			req.Operations = append(req.Operations, specs[i].toOperation())
+		}
+		out, ok, err := rp.loc.Apply(ctx, req)
+		st := Step{Replica: ri, Kind: "local", Pre: pre, LeaseDecidedAt: rp.pendingAt}
+		if err != nil {
+			st.Err = fmt.Sprintf("local apply ok=%v err=%v", ok, err)
+		}
+		// versions: the i-th op of a request gets counter+i+1. Read the base off a
+		// forwarded op when there is one, else continue from the previous request.
+		base := rp.nextBase
+		fwd := map[string]verifx.Operation{}
+		if ok {
+			for _, oo := range out.Operations {
+				fwd[string(oo.Key)] = oo
+			}
+		}
+		for i, o := range specs {
+			if oo, isFwd := fwd[o.Key]; isFwd {
+				base = int64(oo.Version) - int64(i) - 1
+				break
+			}
+		}
+		rp.nextBase = base + int64(len(specs))
+		winners, losers := 0, 0
+		for i := range specs {
+			specs[i].Version = base + int64(i) + 1
+			if oo, isFwd := fwd[specs[i].Key]; isFwd {
+				specs[i].Version = int64(oo.Version)
+				winners++
+			} else {
+				specs[i].Lost = true
+				losers++
+			}
+		}
+		for _, o := range specs {
+			t.Ops = append(t.Ops, o)
+			st.Ops = append(st.Ops, o.ID)
+			t.Delivered[ri][o.ID] = true
+			if o.Lost {
+				st.Rejected = append(st.Rejected, o.ID)
+				continue
+			}
+			st.Accepted = append(st.Accepted, o.ID)
+			// gossip it to everybody else once or twice, and back to its origin
+			for qi, q := range reps {
+				n := 1
+				if r.Chance(1, 3) {
+					n = 2
+				}
+				if qi == ri && !r.Chance(1, 2) {
+					continue
+				}
+				for j := 0; j < n; j++ {
+					q.queue = insertAt(q.queue, r.Intn(len(q.queue)+1), o.ID)
+				}
+			}
+		}
+		var serr error
+		if st.Post, serr = snapshot(rp); serr != nil {
+			return serr
+		}
+		t.Steps = append(t.Steps, st)
+		t.NLocal++
+		t.NLocalOps += len(specs)
+		t.NLocalLost += losers
+		if len(specs) > 1 {
+			t.NLocalMulti++
+		}
+		if winners > 0 && losers > 0 {
+			t.NLocalMixed++
+		}
+		nLocal++
+		return nil
+	}
+	if localPct > 0 {
+		// transactions opened before anything was delivered: every key is still free, so
+		// these are the ones most likely to race with a remote creation of the same key
+		for _, rp := range reps {
+			if r.Chance(1, 2) {
+				begin(rp, map[string]KeyState{})
+			}
+		}
+	}
+	for remaining() > 0 || anyPending() {
 		ri := r.Intn(nRep)
 		rp := reps[ri]
 		pre, err := snapshot(rp)
 		if err != nil {
 			return nil, err
 		}
-		if nLocal < p.MaxLocal && r.Intn(100) < localPct {
-			// local write through versionAssigner -> persist. Legal (the lease allocator
-			// would route it to this node) only when the key has no digest here or its
-			// digest is led by this replica.
-			n := r.Range(1, 2)
-			var req verifx.TxRequest
-			req.Leaseholder = verifx.NodeKey(rp.id)
-			var specs []Op
-			seenKey := map[string]bool{}
-			for j := 0; j < n; j++ {
-				k := prng.Pick(r, t.Keys)
-				ks := pre[k]
-				if (ks.HasDigest && ks.Lease != rp.id) || seenKey[k] {
-					continue
-				}
-				seenKey[k] = true
-				o := Op{Key: k, Lease: rp.id, Origin: rp.id}
-				if r.Chance(1, 4) {
-					o.Del = true
-				}
-				specs = append(specs, o)
-			}
-			if len(specs) == 0 {
-				continue
-			}
-			for i := range specs {
-				specs[i].ID = len(t.Ops) + i
-				if !specs[i].Del {
-					specs[i].Value = fmt.Sprintf("l%d", specs[i].ID)
-				}
-				req.Operations = append(req.Operations, specs[i].toOperation())
-			}
-			out, ok, err := rp.loc.Apply(ctx, req)
-			st := Step{Replica: ri, Kind: "local", Pre: pre}
-			if err != nil || !ok {
-				st.Err = fmt.Sprintf("local apply ok=%v err=%v", ok, err)
-			}
-			for i, oo := range out.Operations {
-				if i < len(specs) {
-					specs[i].Version = int64(oo.Version)
-				}
-			}
-			for _, o := range specs {
-				t.Ops = append(t.Ops, o)
-				st.Ops = append(st.Ops, o.ID)
-				st.Accepted = append(st.Accepted, o.ID)
-				t.Delivered[ri][o.ID] = true
-				// gossip it to everybody else once or twice, and back to its origin
-				for qi, q := range reps {
-					n := 1
-					if r.Chance(1, 3) {
-						n = 2
-					}
-					if qi == ri && !r.Chance(1, 2) {
-						continue
-					}
-					for j := 0; j < n; j++ {
-						q.queue = insertAt(q.queue, r.Intn(len(q.queue)+1), o.ID)
-					}
-				}
-			}
-			if st.Post, err = snapshot(rp); err != nil {
+		if len(rp.pending) > 0 && (remaining() == 0 || r.Chance(1, 4)) {
+			if err := commit(ri, rp, pre); err != nil {
 				return nil, err
 			}
-			t.Steps = append(t.Steps, st)
-			t.NLocal++
-			nLocal++
+			continue
+		}
+		if len(rp.pending) == 0 && nLocal < p.MaxLocal && remaining() > 0 && r.Intn(100) < localPct {
+			begin(rp, pre)
+			if len(rp.pending) > 0 && r.Chance(1, 2) {
+				// committed at once: no window between lease decision and commit
+				if err := commit(ri, rp, pre); err != nil {
+					return nil, err
+				}
+			}
 			continue
 		}
 		if len(rp.queue) == 0 {
